@@ -376,7 +376,7 @@ func runCheck(prop, tier string, nWorkers int, solverName, only, repo string, bu
 	if budget == 0 {
 		budget = 240
 		if tierN == 1 {
-			budget = 3000
+			budget = 7200
 		}
 	}
 	seed, _ := strconv.ParseInt(os.Getenv("VERIF_SEED"), 10, 64)
